@@ -151,6 +151,14 @@ def run_grid_tables(ctx: Ctx, for_c02: bool = False) -> None:
 
 def _guard(ctx: Ctx, rule: str, inst: str, fi, construct: str, thunk, expect=None, msg: str = ""):
     """Evaluate thunk() -> (ok, detail). InterpError counts as failed obligation."""
+    par = getattr(ctx, "_par", None)
+    if par is not None:
+        # inside ``with ctx.parallel():`` — queue; evaluated by a worker process when the section closes
+        def job():
+            ctx._par = None
+            _guard(ctx, rule, inst, fi, construct, thunk, expect, msg)
+        par.defer(job)
+        return True
     try:
         ok, detail = thunk()
     except InterpError as e:
@@ -314,6 +322,31 @@ def _grid_obligations(ctx: Ctx, D: int, ac: bool, for_c02: bool, fractional: boo
             ok = teq(m, want) and teq(mv, want[:, :D]) and teq(rv, symt.matmul(want[:, :D], v[0]).unsqueeze(0))
             return ok, f"two-grid map {tstr(m)[:120]} expected {tstr(want)[:120]}"
         _guard(ctx, "T1.two-grids", f"{tag}:{a}->{b}", fT, f"axes={a} to_axes={b} to_grid {tag}", two)
+    # apply_transform / transform_vectors towards a second grid: an unrelated one, and one that covers the same cube (Grid.cube())
+    # with another size and the other align_corners flag (where only the cube coordinates of the respective flags coincide)
+    Grid = prog.cls("deepali.core.grid", "Grid")
+    n3 = [x + 1 for x in n]
+    s3 = [s[i] * (n[i] - int(ac)) / (n3[i] - int(not ac)) for i in range(D)]
+    for x in s3 + n3:
+        gt.facts.declare_positive(to_rat(x))
+    g3 = it.new(Grid, size=STensor.from_flat(n3, [D]), spacing=STensor.from_flat(s3, [D]), center=STensor.from_flat(c, [D]),
+                direction=Rm, align_corners=not ac)
+    if not it.method(g, "same_domain_as", g3):
+        raise AnalysisError(f"T1 {tag}: same-domain scenario: grids are not reported as covering the same domain")
+    for gname, gx in (("other grid", g2), ("same-domain grid", g3)):
+        for a, b in itertools.product(AXES, AXES):
+            def two_apply(a=a, b=b, gx=gx):
+                want_m = compose(as_h(it.method(gx, "transform", gt.ax["WORLD"], gt.ax[b])), gt.T(a, "WORLD"))
+                r = it.method(g, "apply_transform", pt, gt.ax[a], gt.ax[b], to_grid=gx, decimals=None)
+                want = apply(want_m, pt[0]).unsqueeze(0)
+                if not teq(r, want):
+                    return False, f"apply_transform(to_grid) = {tstr(r)[:100]} expected {tstr(want)[:100]}"
+                rv = it.method(g, "apply_transform", v, gt.ax[a], gt.ax[b], to_grid=gx, vectors=True, decimals=None)
+                wv = symt.matmul(want_m[:, :D], v[0]).unsqueeze(0)
+                if not teq(rv, wv):
+                    return False, f"apply_transform(to_grid, vectors=True) = {tstr(rv)[:100]} expected {tstr(wv)[:100]}"
+                return True, ""
+            _guard(ctx, "T1.two-grids", f"{tag}:apply:{gname}:{a}->{b}", fA, f"apply_transform axes={a} to_axes={b} to_grid={gname} {tag}", two_apply)
     # module-level wrappers
     for fname, vec in (("grid_transform_points", False), ("grid_transform_vectors", True)):
         fw = prog.func("deepali.core.grid", fname)
